@@ -220,6 +220,8 @@ def main(argv=None):
     undecided_tasks = {r["name"] for r in results if r["status"] != "ok"}
     for nm, st in baseline.items():
         if st == "proved" and nm not in ob_status:
+            if nm.endswith(("_key_present", "index_in_range")):
+                continue  # exception-freedom of an indexing operation: generated only where the code indexes (d[k] vs d.get(k))
             tname = nm.rsplit("/", 1)[0]
             if not any(nm.startswith(u + "/") for u in undecided_tasks):
                 if nm in base_premise_only:
